@@ -203,6 +203,9 @@ LA = st.sampled_from([0, 0, 1])          # index into LIST_ATTRS
 OP = st.one_of(
     st.tuples(st.just("set_child"), O, st.integers(-1, 5), IA), st.tuples(st.just("set_child"), O, st.integers(-1, 5), IA),
     st.tuples(st.just("append"), O, P, LA), st.tuples(st.just("append"), O, P, LA),
+    # the container trait is first assigned ITS OWN current value (the trait stores a fresh copy of it), then mutated
+    st.tuples(st.just("self:append"), O, P, LA), st.tuples(st.just("self:table_set"), O, st.sampled_from("ab"), P),
+    st.tuples(st.just("self:group_add"), O, P),
     st.tuples(st.just("pop"), O, st.integers(-3, 3), LA), st.tuples(st.just("remove"), O, P, LA),
     st.tuples(st.just("set_children"), O, st.lists(P, max_size=3), LA),
     st.tuples(st.just("same_children"), O, LA),
@@ -439,6 +442,13 @@ def run(case, ctx):
                 continue
             # materialise the defaults the op reads, before computing reachability
             _ = (n.child, n.children, n.table, n.group, n.mchild, n.mlist, n.tlists)
+            if k.startswith("self:"):
+                k = k[5:]
+                op = [k] + list(op[1:])
+                attr_ = LIST_ATTRS[op[-1]] if k == "append" else {"table_set": "table", "group_add": "group"}[k]
+                setattr(n, attr_, getattr(n, attr_))          # (same contents: whether this is reported is not judged)
+                interesting = True
+                ctx.label("container-assigned-to-itself")
             r = Reach(root, paths)
             del events[:]
             tgt = lambda i: pool[i % npool]
